@@ -41,7 +41,12 @@ SingleAxes(a) == CASE a \in {"beam_stopping_rate", "beam_population_rate", "beam
                    [] OTHER -> {}
 Cases == {c \in [acc : Accessors, species : {"element", "isotope"}, present : BOOLEAN, wl : WlStates,
                  extrap : BOOLEAN, null : BOOLEAN, fallback : BOOLEAN, arg : UNION {ArgClasses(a) : a \in Accessors},
-                 shape : SUBSET {"e", "n", "eb", "ti", "ni", "z", "b"}] :
+                 shape : SUBSET {"e", "n", "eb", "ti", "ni", "z", "b"},
+                 drop : {"none", "ne", "te", "td", "e", "n", "t", "eb", "ti", "ni", "z", "b"}] :
+            \* drop = x: along axis x the stored table falls by four orders of magnitude after its first node (high, low, low), so
+            \* that a cubic interpolant through it dips below zero between the last two nodes; explored for the plain lookup
+            /\ (c.drop # "none" => /\ c.drop \in Rng(Acc[c.acc].axes) /\ c.present /\ c.wl = "both" /\ ~c.null /\ ~c.fallback /\ ~c.extrap
+                                   /\ c.shape = {} /\ c.arg[1] \in {"grid", "inside"} /\ c.species = "element")
             /\ c.arg \in ArgClasses(c.acc)
             /\ (~Acc[c.acc].photon => c.wl = "both")                       \* wavelength irrelevant
             /\ c.shape \subseteq SingleAxes(c.acc)                         \* shape = the set of single-point axes of the stored table
@@ -76,6 +81,8 @@ MissingPolicyUniform == ~c.present => \A a \in Accessors : Outcome([c EXCEPT !.a
 \* the rates themselves never depend on the isotope (only the wavelength does)
 IsotopeUsesElementRates == (c.present /\ ~Acc[c.acc].photon) => Outcome([c EXCEPT !.species = "element"]) = Outcome([c EXCEPT !.species = "isotope"])
 \* flags the outcome must not depend on
+\* the policy does not depend on the numbers stored
+DropIrrelevant == Outcome([c EXCEPT !.drop = "none"]) = Outcome(c)
 ExtrapOnlyOutside == c.arg[1] \in {"grid", "inside", "nonpos"} => Outcome([c EXCEPT !.extrap = TRUE]) = Outcome([c EXCEPT !.extrap = FALSE])
 
 EmitCase == PrintT(ToJson([case |-> c, outcome |-> Outcome(c)]))
